@@ -129,6 +129,109 @@ def applyZipRun : Nat → List (T × List (Nat × Bool)) → List Ev
 
 def applyZipTrace (t : T) : List Ev := applyZipRun t.size [(t, [])]
 
+/-! ### `Node.apply` at pointer level: the literal loop over node ids, child lists and parent pointers of the array -/
+
+/-- `_child_nodes` of node `j` as the array encodes them (the same expression `buildTree` uses) -/
+def kidsOf (par : Array Int) (j : Nat) : List Nat := (List.range par.size).filter (fun k => par[k]! == (j : Int))
+
+/-- the inner loop: `while node is not self and node._parent_node._child_nodes[-1] is node: node = node._parent_node; after_fn(node)` -/
+def climbPtr (par : Array Int) (start : Nat) : Nat → Nat → List Ev
+  | 0, _ => []
+  | f + 1, node =>
+    if node == start then []
+    else if (kidsOf par (par[node]!).toNat).getLast? == some node
+      then .after (par[node]!).toNat :: climbPtr par start f (par[node]!).toNat
+      else []
+
+/-- the outer loop: `stack=[self]; node=stack.pop(); leaf: leaf_fn + climb; else before_fn, push reversed children` -/
+def applyPtrRun (par : Array Int) (start : Nat) : Nat → List Nat → List Ev
+  | 0, _ => []
+  | _ + 1, [] => []
+  | f + 1, node :: rest =>
+    if (kidsOf par node).isEmpty then .leaf node :: (climbPtr par start par.size node ++ applyPtrRun par start f rest)
+    else .before node :: applyPtrRun par start f (kidsOf par node ++ rest)
+
+/-- `Node.apply` started at the node with id `start`; `par.size` iterations of either loop suffice (proved) -/
+def applyPtrTrace (par : Array Int) (start : Nat) : List Ev := applyPtrRun par start par.size [start]
+
+/-! ### generator state machines over a mutable heap: `levelorder_iter` one `next()` at a time
+
+The heap has the `_child_nodes` list of every node (`kids`, by node id) and the private list objects of the live
+generators (`priv`, by generator number: the `remaining` queue of that generator).  A step RETURNS a heap, so a machine
+that consumed a node's own list (the seeded change C15-2: `remaining = self._child_nodes`) is expressible; the theorems
+say the machine as written does not do it, and that generators do not disturb each other. -/
+
+structure Heap where
+  kids : Nat → List Nat
+  priv : Nat → List Nat
+
+inductive LvPc where
+  | init (self : Nat)      -- not started: the first `next()` yields `self`
+  | started (self : Nat)   -- suspended at `yield self`; next: `remaining = self.child_nodes()` (a copy), enter the loop
+  | popped (node : Nat)    -- suspended at `yield node`; next: `remaining.extend(node.child_nodes())`, loop
+  | done
+
+structure LvSt where
+  q : Nat                  -- which private list is this generator's `remaining`
+  pc : LvPc
+
+def Heap.setPriv (h : Heap) (q : Nat) (v : List Nat) : Heap := { h with priv := fun a => if a = q then v else h.priv a }
+
+/-- `while len(remaining) > 0: node = remaining.pop(0); yield node` up to the next suspension -/
+def lvLoop (h : Heap) (q : Nat) : Heap × LvSt × Option Nat :=
+  match h.priv q with
+  | [] => (h, ⟨q, .done⟩, none)
+  | node :: rest => (h.setPriv q rest, ⟨q, .popped node⟩, some node)
+
+/-- one `next()` of `levelorder_iter()` (no filter): new heap, new generator state, the node yielded (`none` = StopIteration) -/
+def lvNext (h : Heap) (s : LvSt) : Heap × LvSt × Option Nat :=
+  match s.pc with
+  | .init self => (h, ⟨s.q, .started self⟩, some self)
+  | .started self => lvLoop (h.setPriv s.q (h.kids self)) s.q
+  | .popped node => lvLoop (h.setPriv s.q (h.priv s.q ++ h.kids node)) s.q
+  | .done => (h, s, none)
+
+/-- `k` calls of `next()` on one generator, nothing else running -/
+def lvSolo (h : Heap) (s : LvSt) : Nat → List (Option Nat)
+  | 0 => []
+  | k + 1 => (lvNext h s).2.2 :: lvSolo (lvNext h s).1 (lvNext h s).2.1 k
+
+/-- two generators on the same heap, stepped in the order of the schedule (`true` = the first); who stepped, what it yielded -/
+def lvSched (h : Heap) (s1 s2 : LvSt) : List Bool → List (Bool × Option Nat)
+  | [] => []
+  | true :: r => (true, (lvNext h s1).2.2) :: lvSched (lvNext h s1).1 (lvNext h s1).2.1 s2 r
+  | false :: r => (false, (lvNext h s2).2.2) :: lvSched (lvNext h s2).1 s1 (lvNext h s2).2.1 r
+
+/-- what `k` calls of `next()` return on a generator whose complete output is `ys`: the first `k` items, then `none`
+(StopIteration) for ever -/
+def padTake : Nat → List Nat → List (Option Nat)
+  | 0, _ => []
+  | k + 1, [] => none :: padTake k []
+  | k + 1, y :: ys => some y :: padTake k ys
+
+/-- one `next()` of `preorder_iter()` (no filter): `stack=[self]` on the first call, then `node = stack.pop(); yield node`,
+and on resumption `stack.extend(reversed(node._child_nodes))`; the private list is the stack, head = top -/
+def pvNext (h : Heap) (s : LvSt) : Heap × LvSt × Option Nat :=
+  match s.pc with
+  | .init self => (h.setPriv s.q [], ⟨s.q, .popped self⟩, some self)
+  | .started self => (h.setPriv s.q [], ⟨s.q, .popped self⟩, some self)
+  | .popped node => lvLoop (h.setPriv s.q (h.kids node ++ h.priv s.q)) s.q
+  | .done => (h, s, none)
+
+/-- `k` calls of `next()` on one generator of either kind -/
+def gSolo (next : Heap → LvSt → Heap × LvSt × Option Nat) (h : Heap) (s : LvSt) : Nat → List (Option Nat)
+  | 0 => []
+  | k + 1 => (next h s).2.2 :: gSolo next (next h s).1 (next h s).2.1 k
+
+/-- two generators, possibly of different kinds, stepped in the order of the schedule -/
+def gSched (n1 n2 : Heap → LvSt → Heap × LvSt × Option Nat) (h : Heap) (s1 s2 : LvSt) : List Bool → List (Bool × Option Nat)
+  | [] => []
+  | true :: r => (true, (n1 h s1).2.2) :: gSched n1 n2 (n1 h s1).1 (n1 h s1).2.1 s2 r
+  | false :: r => (false, (n2 h s2).2.2) :: gSched n1 n2 (n2 h s2).1 s1 (n2 h s2).2.1 r
+
+/-- the heap a parent array denotes, with every private list empty -/
+def heapOf (par : Array Int) : Heap := ⟨kidsOf par, fun _ => []⟩
+
 /-! ### `ancestor_iter` at pointer level -/
 
 /-- the parent array of a protocol tree, read from the same tokens `parseTree` reads -/
